@@ -22,7 +22,7 @@
 (* is the result of applying the logged edits with the specification's     *)
 (* operators -- and must be the table the API lists.  Rejected             *)
 (* observations are reported as [line, query number (0 = the edit          *)
-(* itself), what was admissible].                                          *)
+(* itself), what was admissible, which known deviation would admit it].    *)
 (***************************************************************************)
 EXTENDS RewritesCore, TLC, Json
 
@@ -32,50 +32,83 @@ VARIABLES l, bad, cur
 
 ToSet(s) == {s[i] : i \in DOMAIN s}
 
-\* Admissible outcomes for a logged table: entries carry mc = "the canonical
-\* name is written in another letter case" (RewritesCore: SILENT (case)).
-Admitted(tab, h, qt) == OutcomesAnyCase(tab, LAMBDA i : tab[i].mc, h, qt)
-
-\* filtering level: [h, qt, r, canon, ips]
-FiltOK(tab, x) ==
-    \E o \in Admitted(tab, x.h, x.qt) :
-        /\ o.r = x.r
-        /\ o.canon = x.canon
-        /\ o.ips = ToSet(x.ips)
+\* Entries carry mc = "the canonical name is written in another letter case";
+\* the specification does not care (RewritesCore: letter case), the logged table
+\* has all names folded.
+Admitted(tab, h, qt) == Outcomes(tab, h, qt)
 
 \* What the mock upstream did when asked for name n: logged per line as a
 \* list of <<name, mode>> for the names that are not simply answered.
 ModeIn(upm, n) == IF \E p \in ToSet(upm) : p[1] = n
                   THEN (CHOOSE p \in ToSet(upm) : p[1] = n)[2] ELSE "answer"
 
-\* pipeline level: [h, qt, ask, rcode, qok, cname, ips, fromup, odd, answered]
-\* The reply always carries the client's own question (qok).
-PipeOK(tab, upm, x) ==
-    /\ x.answered /\ x.qok /\ x.odd = ""
-    /\ \E o \in Admitted(tab, x.h, x.qt) :
+\* filtering level: [h, qt, r, canon, ips]
+FiltIn(outs, x) ==
+    \E o \in outs : o.r = x.r /\ o.canon = x.canon /\ o.ips = ToSet(x.ips)
+
+\* pipeline level: [h, qt, ask, rcode, qok, cname, ips, fromup, odd, answered].
+\* The reply always carries the client's own question (qok); anyq is only used
+\* when attributing a rejected observation to the finding about error replies.
+PipeIn(outs, upm, x, anyq) ==
+    /\ x.answered /\ x.odd = ""
+    /\ \E o \in outs :
          LET e == Serve(o, x.h, x.qt, LAMBDA n : ModeIn(upm, n)) IN
+         /\ x.qok \/ (anyq /\ \E a \in e.ask : ModeIn(upm, a[1]) = "error")
          /\ e.rcode = x.rcode
          /\ e.ask = {<<a[1], a[2]>> : a \in ToSet(x.ask)}
          /\ Len(x.ask) = Cardinality(e.ask)
-         /\ e.cname = x.cname
+         /\ e.cname = x.cname \/ (e.cnameopt /\ x.cname = NoName)
          /\ e.ips = ToSet(x.ips)
          /\ e.fromup = x.fromup
 
+ObsOK(lvl, outs, upm, x) == IF lvl = "pipe" THEN PipeIn(outs, upm, x, FALSE) ELSE FiltIn(outs, x)
+
 \* What the specification admits for a query, in the vocabulary of the trace
-\* (reported with every rejected observation so that the orchestrator can
-\* classify it).
+\* (reported with every rejected observation).
 Expected(lvl, tab, upm, x) ==
     IF lvl = "pipe" THEN {Serve(o, x.h, x.qt, LAMBDA n : ModeIn(upm, n)) : o \in Admitted(tab, x.h, x.qt)}
     ELSE {[r |-> o.r, canon |-> o.canon, ips |-> o.ips] : o \in Admitted(tab, x.h, x.qt)}
+
+(***************************************************************************)
+(* Attribution of a rejected observation to the known deviations (findings)*)
+(* that would admit it: the first of the labels below under which it is    *)
+(* accepted, "" if none.  Base sets: one deviation of RewritesCore, "case" *)
+(* (mixed-case canonical names read verbatim), "all" of them; "fwd" and    *)
+(* "err" are the two deviations of the pipeline.                           *)
+(***************************************************************************)
+BaseOuts(tab, x, b) ==
+    LET mixed(i) == tab[i].mc IN
+    CASE b = "strict" -> Outcomes(tab, x.h, x.qt)
+      [] b = "case"   -> OutcomesVerbatim(tab, mixed, x.h, x.qt, {})
+      [] b = "all"    -> OutcomesL(tab, x.h, x.qt, Deviations) \cup OutcomesVerbatim(tab, mixed, x.h, x.qt, Deviations)
+      [] OTHER        -> OutcomesL(tab, x.h, x.qt, {b})
+Labels == <<[n |-> "fwd", b |-> "strict", f |-> TRUE, e |-> FALSE], [n |-> "err", b |-> "strict", f |-> FALSE, e |-> TRUE],
+            [n |-> "tie", b |-> "tie", f |-> FALSE, e |-> FALSE], [n |-> "exact", b |-> "exact", f |-> FALSE, e |-> FALSE],
+            [n |-> "late", b |-> "late", f |-> FALSE, e |-> FALSE], [n |-> "case", b |-> "case", f |-> FALSE, e |-> FALSE],
+            [n |-> "fwd+err", b |-> "strict", f |-> TRUE, e |-> TRUE],
+            [n |-> "tie+fwd", b |-> "tie", f |-> TRUE, e |-> FALSE], [n |-> "exact+fwd", b |-> "exact", f |-> TRUE, e |-> FALSE],
+            [n |-> "late+fwd", b |-> "late", f |-> TRUE, e |-> FALSE], [n |-> "case+fwd", b |-> "case", f |-> TRUE, e |-> FALSE],
+            [n |-> "case+err", b |-> "case", f |-> FALSE, e |-> TRUE], [n |-> "all", b |-> "all", f |-> TRUE, e |-> TRUE]>>
+Under(lvl, tab, upm, x, lb) ==
+    LET outs == BaseOuts(tab, x, lb.b) IN
+    IF lvl = "pipe" THEN PipeIn(IF lb.f THEN Forwarded(outs) ELSE outs, upm, x, lb.e)
+    ELSE ~lb.f /\ ~lb.e /\ FiltIn(outs, x)
+Deviation(lvl, tab, upm, x) ==
+    IF \E i \in DOMAIN Labels : Under(lvl, tab, upm, x, Labels[i])
+    THEN Labels[CHOOSE i \in DOMAIN Labels : Under(lvl, tab, upm, x, Labels[i])
+                                             /\ \A j \in 1..(i - 1) : ~Under(lvl, tab, upm, x, Labels[j])].n
+    ELSE ""
 
 RECURSIVE BadFrom(_, _, _)
 BadFrom(i, j, tab) ==
     LET ln == Trace[i] IN
     IF j > Len(ln.qs) THEN <<>>
     ELSE LET x == ln.qs[j]
+             lvl == IF ln.lvl = "pipe" THEN "pipe" ELSE "filt"
              upm == IF ln.lvl = "pipe" THEN ln.upm ELSE <<>>
-             ok == IF ln.lvl = "pipe" THEN PipeOK(tab, upm, x) ELSE FiltOK(tab, x) IN
-         (IF ok THEN <<>> ELSE <<[l |-> i, q |-> j, exp |-> Expected(ln.lvl, tab, upm, x)]>>)
+             ok == ObsOK(lvl, Admitted(tab, x.h, x.qt), upm, x) IN
+         (IF ok THEN <<>> ELSE <<[l |-> i, q |-> j, exp |-> Expected(lvl, tab, upm, x),
+                                  dev |-> Deviation(lvl, tab, upm, x)]>>)
            \o BadFrom(i, j + 1, tab)
 
 \* The table after line i.
@@ -97,7 +130,7 @@ Init == l = 1 /\ bad = <<>> /\ cur = <<>>
 Next == /\ l <= Len(Trace)
         /\ LET r == After(l) IN
            /\ cur' = IF Trace[l].lvl = "hist" THEN r.tab ELSE cur
-           /\ bad' = bad \o (IF EditOK(l, r) THEN <<>> ELSE <<[l |-> l, q |-> 0, exp |-> {}]>>)
+           /\ bad' = bad \o (IF EditOK(l, r) THEN <<>> ELSE <<[l |-> l, q |-> 0, exp |-> {}, dev |-> ""]>>)
                          \o BadFrom(l, 1, r.tab)
         /\ l' = l + 1
         /\ (l' = Len(Trace) + 1 => PrintT(<<"@@V", ToJson([n |-> Len(Trace), bad |-> bad'])>>))
